@@ -322,13 +322,17 @@ theorem C10_pipeline_chain_any (h : Refines R Inv rem) (s : Stage β X S Res)
 
 /-- … and at EVERY moment of every history (not only at the end): what was delivered on the
 surviving timeline followed by what the chained iterator will still deliver is the uninterrupted
-run's output, and `_iterators` tracks every stage exactly once. -/
+run's output; the aggregation state of every stage is the aggregate of exactly the prefix of that
+stage's uninterrupted output stream that the stage has delivered so far (`consumedAggs`: the whole
+stream minus what the stage will still deliver) — in particular right after a restore at any cut and
+in any generation; and `_iterators` tracks every stage exactly once. -/
 theorem C10_pipeline_chain_any_prefix (h : Refines R Inv rem) (s : Stage β X S Res)
     (ss : List (Stage β X S Res)) (hf : ∀ t ∈ s :: ss, ∀ a, (t.f a).length ≤ 1)
     (it : R.It) (hi : Inv it) (ops : List Op) :
     ∃ r, ChainRun.run R (s :: ss) (ChainRun.init R (s :: ss) it) ops = .ok r ∧
       r.delivered ++ chainRem rem (s :: ss) r.c.top = chainOut (s :: ss) (rem it) ∧
       chainInv Inv rem (rem it) (s :: ss) r.c.top ∧
+      aggsDown R (s :: ss) r.c.top = consumedAggs rem (s :: ss) r.c.top (rem it) ∧
       r.c.tracked = depthsOf (s :: ss).length := by
   obtain ⟨href, _⟩ := chain_refines h (rem it) (s :: ss) hf
   obtain ⟨fi, fr⟩ := chain_fresh (Inv := Inv) (rem := rem) it hi (s :: ss)
@@ -337,7 +341,8 @@ theorem C10_pipeline_chain_any_prefix (h : Refines R Inv rem) (s : Stage β X S 
     (by rw [ChainRun.init_toSrc]; exact q1)
   have e1 : r.delivered = q.delivered := by rw [← r2]; rfl
   have e2 : r.c.top = q.it := by rw [← r2]; rfl
-  exact ⟨r, r1, by rw [e1, e2, q3, fr], by rw [e2]; exact q2, r3⟩
+  exact ⟨r, r1, by rw [e1, e2, q3, fr], by rw [e2]; exact q2,
+    aggsDown_consumed (rem it) (s :: ss) r.c.top (by rw [e2]; exact q2), r3⟩
 
 /-- `from_state` reads nothing of its receiver but the number of tracked iterators (and the runners,
 which are the chain itself): restoring through the running iterator (`it.from_state(state)`) and
